@@ -348,9 +348,11 @@ func init() {
 	Register(&Prop{
 		ID:        "C06",
 		Technique: "bounded exhaustive enumeration of type-reference graphs (3 object types x property sets with every link kind; chains up to length 7 with every mix of link kinds), judged by a least-fixpoint reference for 'has a finite instance' and a reachability reference for 'requires itself'",
-		Rule: "F1: @main, @a, @b each an object with 1-2 properties, each property one of {scalar; plain/optional/nullable/array link to one of the 3 types; choice of two types}: all 650 root forms x reduced (thorough: all) forms of the other two; F2: chains @main->t1..tk->@main, k<=4 (thorough 6), each link from 6 kinds, with/without an extra scalar property; clauses: finite(root) => not 104; root reaches itself via plain links => 104; accepted => Example() returns RFC 8259 JSON; non-trivial = graphs where a clause applies",
-		Bounds: func(tier string) map[string]any { return map[string]any{"types": 3, "max_chain": map[string]int{"quick": 5, "thorough": 7}[tier]} },
-		Run:    c06Run,
+		Rule:      "F1: @main, @a, @b each an object with 1-2 properties, each property one of {scalar; plain/optional/nullable/array link to one of the 3 types; choice of two types}: all 650 root forms x reduced (thorough: all) forms of the other two; F2: chains @main->t1..tk->@main, k<=4 (thorough 6), each link from 6 kinds, with/without an extra scalar property; clauses: finite(root) => not 104; root reaches itself via plain links => 104; accepted => Example() returns RFC 8259 JSON; non-trivial = graphs where a clause applies",
+		Bounds: func(tier string) map[string]any {
+			return map[string]any{"types": 3, "max_chain": map[string]int{"quick": 5, "thorough": 7}[tier]}
+		},
+		Run: c06Run,
 		Replay: func(w *core.W, v *core.Violation) {
 			var g c06Graph
 			if stdjson.Unmarshal(v.Witness, &g) == nil {
